@@ -7,7 +7,7 @@ import re
 from .. import calg
 from ..pymodel import package
 from ..ratemodel import model as ratemodel, SELF
-from ..valueflow import Flow, show, simp, walk
+from ..valueflow import Flow, show, simp, subst, walk
 
 EXPLANATION = (
     "Over every variant (dispatch arm x truthiness of the optional beta/gamma factors x shielding sub-branch) of rateexpr in Reaction, "
@@ -65,26 +65,47 @@ COEFF = {("attr", SELF, "alpha"): "alpha", ("attr", SELF, "beta"): "beta", ("att
 
 # ------------------------------------------------------------------ dispatch evaluation
 
+_ORD = {"Lt": lambda a, b: a < b, "LtE": lambda a, b: a <= b, "Gt": lambda a, b: a > b, "GtE": lambda a, b: a >= b,
+        "Eq": lambda a, b: a == b, "NotEq": lambda a, b: a != b, "Is": lambda a, b: a == b, "IsNot": lambda a, b: a != b}
+
+
 def eval_cond(rm, cls, cond, dvar, value):
-    """Truth of a dispatch condition for dispatch variable `dvar` = value; None if the condition is not about dvar."""
-    if cond[0] == "cmp" and len(cond[1]) == 1:
+    """Truth of a dispatch condition for dispatch variable `dvar` = value; None if the condition is not about dvar.  Understood:
+    (chained) comparisons of the dispatch variable with constants / enum members (== != is < <= > >=, either side), membership in a
+    display, a range or the keys of a dict display."""
+    def is_dvar(x):
+        return x == ("attr", SELF, dvar) or (dvar == "reaction_type" and x == ("attr", ("param", "reac"), "reaction_type")) \
+            or (x[0] == "call" and x[1] == ("global", "int") and len(x[2]) == 1 and not x[3] and is_dvar(x[2][0])) \
+            or (x[0] == "attr" and x[2] == "value" and is_dvar(x[1]))
+
+    def val(x):
+        return value if is_dvar(x) else rm.enum_of_ir(cls, x)
+    if cond[0] == "cmp" and len(cond[1]) == 1 and cond[1][0] in ("In", "NotIn"):
         op = cond[1][0]
         l, r = cond[2]
-        if l == ("attr", SELF, dvar) or (dvar == "reaction_type" and l == ("attr", ("param", "reac"), "reaction_type")):
-            if op in ("Eq", "NotEq"):
-                rv = rm.enum_of_ir(cls, r)
-                if rv is None:
-                    return None
-                return (rv == value) if op == "Eq" else (rv != value)
-            if op in ("In", "NotIn"):
-                vals = None
-                if r[0] in ("list", "tuple", "set"):
-                    vals = [rm.enum_of_ir(cls, x) for x in r[1]]
-                elif r[0] == "call" and r[1] == ("global", "range") and all(a[0] == "const" for a in r[2]):
-                    vals = list(range(*[a[1] for a in r[2]]))
-                if vals is None or any(v is None for v in vals):
-                    return None
-                return (value in vals) if op == "In" else (value not in vals)
+        if is_dvar(l):
+            vals = None
+            if r[0] in ("list", "tuple", "set"):
+                vals = [rm.enum_of_ir(cls, x) for x in r[1]]
+            elif r[0] == "dict":
+                vals = [rm.enum_of_ir(cls, k_) for k_, _v in r[1]]
+            elif r[0] == "call" and r[1] == ("global", "range") and all(a[0] == "const" for a in r[2]):
+                vals = list(range(*[a[1] for a in r[2]]))
+            elif r[0] == "call" and r[1] in (("global", "frozenset"), ("global", "set"), ("global", "tuple"), ("global", "list")) and len(r[2]) == 1 and not r[3] \
+                    and r[2][0][0] in ("list", "tuple", "set"):
+                vals = [rm.enum_of_ir(cls, x) for x in r[2][0][1]]
+            if vals is None or any(v is None for v in vals):
+                return None
+            return (value in vals) if op == "In" else (value not in vals)
+        return None
+    if cond[0] == "cmp" and all(o in _ORD for o in cond[1]) and any(is_dvar(x) for x in cond[2]):
+        xs = [val(x) for x in cond[2]]
+        if any(x is None for x in xs):
+            return None
+        try:
+            return all(_ORD[o](a, b) for o, a, b in zip(cond[1], xs, xs[1:]))
+        except TypeError:
+            return None
     return None
 
 
@@ -238,15 +259,19 @@ def _r1(ctx, rm, pkg, allv):
     ctx.floor("R1", "sign-adjacent variants", n, 15)
     # the clean-up table itself, read off the value _beautify returns: a chain of str.replace(old, new) over its argument -- however the
     # chain is spelled (method chain, successive assignments, a loop over a literal / module-level table of pairs, unrolled at parse time)
-    fn = pkg.method("Reaction", "_beautify")
-    ctx.saw("naunet/reactions/reaction.py", "Reaction._beautify")
-    W = ("naunet/reactions/reaction.py", fn.lineno)
-    fl = Flow(fn, "naunet/reactions/reaction.py", consts=rm.module_consts("naunet/reactions/reaction.py"))
+    bc, fn = pkg.resolve("Reaction", "_beautify")          # (wherever in the MRO it is defined)
+    if fn is None:
+        fn = pkg.method("Reaction", "_beautify")
+    bfile = pkg.cls(bc).file
+    ctx.saw(bfile, f"{bc}._beautify")
+    W = (bfile, fn.lineno)
+    fl = Flow(fn, bfile, consts=rm.module_consts(bfile))
     rets = [f for f in fl.facts if f.kind == "return"]
     params = [a.arg for a in fn.args.args][1:]
     chain, base = [], None
     if len(rets) == 1 and rets[0].value is not None:
-        v = simp(rets[0].value)
+        # (a table read through self/cls is the class-level display it is bound to; a fold over it -- functools.reduce -- is unfolded by simp)
+        v = simp(subst(simp(rets[0].value), rm.class_consts("Reaction")))
         while v[0] == "meth" and v[2] == "replace" and len(v[3]) == 2 and not v[4] and all(a[0] == "const" and isinstance(a[1], str) for a in v[3]):
             chain.append((v[3][0][1], v[3][1][1]))
             v = v[1]
@@ -380,24 +405,30 @@ def _r2_r3(ctx, rm, pkg, allv):
                           f"{txt!r} == reference law" if a.equiv(b) else "rate template differs from the reference law of this database code",
                           expected=f"{reftxt}  [{b.show()[:160]}]", found=f"{txt}  [{a.show()[:160]}]")
     ctx.floor("R2", "code table entries", total, 44)
-    # sibling agreement: grain-delegated list of Reaction.rateexpr == types of Grain.rateexpr
+    # sibling agreement: the types Reaction.rateexpr hands to the grain == the types Grain.rateexpr dispatches to a rate builder.  Decided
+    # by EVALUATING both dispatches for every ReactionType value (whatever the spelling: list / tuple / set / class-level table /
+    # comparison chain), not by reading a list off the source
     gv = rm.variants("Grain")
-    gtypes = set()
-    for v in gv:
-        if v.kind == "delegate":
-            cond, pol = v.conds[-1]
-            if pol and cond[0] == "cmp" and cond[1] == ("Eq",):
-                gtypes.add(rm.enum_of_ir("Grain", cond[2][1]))
-    rtypes = set()
-    for v in allv["Reaction"]:
-        if v.kind == "delegate":
-            cond, pol = v.conds[-1]
-            if pol and cond[0] == "cmp" and cond[1] == ("In",) and cond[2][1][0] in ("list", "tuple"):
-                rtypes |= {rm.enum_of_ir("Reaction", x) for x in cond[2][1][1]}
+    gtypes, rtypes, open_ = set(), set(), set()
+    for tval in sorted(set(rm.basic_types().values())):
+        for who, vs, acc in (("Grain", gv, gtypes), ("Reaction", allv["Reaction"], rtypes)):
+            arms = arms_for(rm, who, vs, "reaction_type", tval)
+            # (the grain's own `if rate is NotImplemented: raise` is about what the builder returns, not about which builder is taken)
+            about_result = lambda c: any(x == ("global", "NotImplemented") for x in walk(c))
+            und = {show(c)[:70] for _, extra in arms for c, _p in extra if not _about_law(c) and not about_result(c)}
+            kinds = {a.kind for a, extra in arms if not any(about_result(c) and p_ for c, p_ in extra)}
+            if arms and kinds == {"delegate"}:
+                acc.add(tval)
+            elif und and "delegate" in kinds:
+                open_ |= und
     ctx.floor("R2", "grain-dispatched types", len(gtypes), 9)
-    ctx.check(gtypes == rtypes and None not in gtypes, "R2", "Reaction.rateexpr grain list == Grain.rateexpr chain", ("naunet/grains/grain.py", 0),
-              "the types the native class hands to the grain are exactly the types the grain dispatches on",
-              expected=str(sorted(x for x in gtypes if x is not None)), found=str(sorted(x for x in rtypes if x is not None)))
+    if open_ and gtypes != rtypes:
+        ctx.unrec("R2", "Reaction.rateexpr grain list == Grain.rateexpr chain", ("naunet/grains/grain.py", 0),
+                  f"cannot decide which types are handed to / dispatched by the grain model: condition(s) {sorted(open_)[:3]} are not understood")
+    else:
+        ctx.check(gtypes == rtypes, "R2", "Reaction.rateexpr grain list == Grain.rateexpr chain", ("naunet/grains/grain.py", 0),
+                  "the types the native class hands to the grain are exactly the types the grain dispatches on",
+                  expected=str(sorted(gtypes)), found=str(sorted(rtypes)))
 
 
 # ------------------------------------------------------------------ R4
@@ -518,3 +549,117 @@ MUTANTS += [
         {"file": L, "old": _LEEDS4_OLD, "new": "            rate = self._photolaw(re1, self._selfshielded, 0)\n"},
         {"file": L, "old": _LEEDS_DEF, "new": _leeds_helper('["H2", "CO", "N2", "H2+"]')}], "rules": ["R3"]},
 ]
+
+# ---- spellings accepted since the round-5 benign sets (each also as a seeded defect written in the new spelling) ----
+G = "naunet/grains/grain.py"
+_CLS_ATTR_OLD = '    format = "naunet"\n'
+_BEAUT_FOLD = '        rate = reduce(lambda acc, fix: acc.replace(fix[0], fix[1]), self._sign_fixes, rate_string)\n'
+
+
+def _sign_table(mm):
+    return _CLS_ATTR_OLD + '\n    _sign_fixes = (("++", "+"), ("--", "' + mm + '"), ("+-", "-"), ("-+", "-"))\n'
+
+
+_KIDA_HEAD = '    def rateexpr(self, grain: Grain = None) -> str:\n        a = self.alpha\n'
+_KIDA_TAIL = '        rate = self._beautify(rate)\n        return rate\n\n    def _parse_string(self, react_string) -> None:\n        self.source = "kida"'
+_KIDA_ARM1 = '        if formula == 1:\n            rate = f"{a} * zeta"\n        elif formula == 2:\n'
+
+
+def _kida_pipeline(outer):
+    """rateexpr = clean-up of a private helper that holds the whole chain (one arm as a guard clause, the refusing arms inside)"""
+    return [{"file": K, "old": _KIDA_HEAD, "new": '    def rateexpr(self, grain: Grain = None) -> str:\n        return ' + outer + '\n\n    def _law(self) -> str:\n        a = self.alpha\n'},
+            {"file": K, "old": _KIDA_ARM1, "new": '        if formula == 1:\n            return f"{a} * zeta"\n        if formula == 2:\n'},
+            {"file": K, "old": _KIDA_TAIL, "new": '        return rate\n\n    def _parse_string(self, react_string) -> None:\n        self.source = "kida"'}]
+
+
+_GRAIN_ARMS = [("GRAIN_RECOMINE", "rate_recombination"), ("GRAIN_FREEZE", "rate_depletion"), ("GRAIN_DESORB_THERMAL", "rate_thermal_desorption"),
+               ("GRAIN_DESORB_PHOTON", "rate_photon_desorption"), ("GRAIN_DESORB_COSMICRAY", "rate_cosmicray_desorption"), ("GRAIN_DESORB_H2", "rate_h2_desorption"),
+               ("SURFACE_TWOBODY", "rate_surface_twobody"), ("GRAIN_DESORB_REACTIVE", "rate_reactive_desorption"), ("GRAIN_ECAPTURE", "rate_electron_capture")]
+_GRAIN_CHAIN = "".join(("        if" if i == 0 else "        elif") + f" rtype == ReactionType.{t}:\n            rate = self.{m}(reac)\n\n" for i, (t, m) in enumerate(_GRAIN_ARMS)) \
+    + "        else:\n            raise ValueError("
+_GRAIN_SCAN = ("        for known, builder in self._builders:\n            if rtype == known:\n                rate = getattr(self, builder)(reac)\n                break\n\n"
+               "        else:\n            raise ValueError(")
+_GRAIN_DEF = "    def rateexpr(self, reac: Reaction) -> str:\n        rtype = reac.reaction_type\n"
+
+
+def _grain_table(skip=None):
+    return [{"file": G, "old": _GRAIN_CHAIN, "new": _GRAIN_SCAN},
+            {"file": G, "old": _GRAIN_DEF, "new": "    _builders = (\n" + "".join(f'        (ReactionType.{t}, "{m}"),\n' for t, m in _GRAIN_ARMS if t != skip) + "    )\n\n" + _GRAIN_DEF}]
+
+
+BENIGN += [
+    {"name": "beautify-fold-over-class-table", "edits": [{"file": R, "old": _BEAUT_OLD, "new": _BEAUT_FOLD}, {"file": R, "old": _CLS_ATTR_OLD, "new": _sign_table("+")}]},
+    {"name": "kida-chain-in-private-helper", "edits": _kida_pipeline("self._beautify(self._law())")},
+    {"name": "grain-chain-as-class-table-scan", "edits": _grain_table()},
+]
+MUTANTS += [
+    {"name": "beautify-fold-class-table-wrong-sign", "edits": [{"file": R, "old": _BEAUT_OLD, "new": _BEAUT_FOLD}, {"file": R, "old": _CLS_ATTR_OLD, "new": _sign_table("-")}], "rules": ["R1"]},
+    {"name": "kida-helper-result-not-cleaned", "edits": _kida_pipeline("self._law()"), "rules": ["R1"]},
+    {"name": "grain-class-table-missing-type", "edits": _grain_table("GRAIN_DESORB_H2"), "rules": ["R2"]},
+]
+
+
+def _kida_dict(const):
+    """two of the laws looked up in a local table keyed by the formula number"""
+    return {"file": K, "old": _KIDA_ARM1, "new": '        laws = {1: f"{a} * zeta", 4: f"{a} * {b} * (0.62 + ' + const + '*{c}*sqrt(300.0/Tgas))"}\n'
+            '        if formula in laws:\n            rate = laws[formula]\n        elif formula == 2:\n'}
+
+
+BENIGN += [dict(_kida_dict("0.4767"), name="kida-laws-in-local-dict"),
+           {"name": "kida-formula-range-test", "file": K, "old": "        elif formula == 6:\n", "new": "        elif 5 < formula <= 6:\n"}]
+MUTANTS += [dict(_kida_dict("0.4667"), name="kida-local-dict-wrong-constant", rules=["R3"]),
+            {"name": "kida-range-test-swallows-ip2", "file": K, "old": "        elif formula == 5:\n", "new": "        elif formula > 5:\n", "rules": ["R2", "R3"]}]
+
+RT = "naunet/reactiontype.py"
+_RT_END = "    UNKNOWN = 999\n    DUMMY = 1000\n"
+
+
+def _grain_types_imported(skip=""):
+    """the grain-delegated types kept in the module that defines ReactionType and imported from there"""
+    tup = _GTUPLE.replace("_ON_GRAIN", "ON_GRAIN").replace(skip, "") if skip else _GTUPLE.replace("_ON_GRAIN", "ON_GRAIN")
+    return [{"file": RT, "old": _RT_END, "new": _RT_END + "\n\n" + tup.rstrip("\n") + "\n"},
+            {"file": R, "old": "from ..reactiontype import ReactionType\n", "new": "from ..reactiontype import ReactionType, ON_GRAIN\n"},
+            {"file": R, "old": _GLIST_OLD, "new": "        elif rtype in ON_GRAIN:\n"}]
+
+
+BENIGN.append({"name": "grain-types-imported-tuple", "edits": _grain_types_imported()})
+MUTANTS.append({"name": "grain-imported-tuple-missing-type", "edits": _grain_types_imported("    ReactionType.GRAIN_DESORB_H2,\n"), "rules": ["R2"]})
+BENIGN.append({"name": "kida-law-by-percent-format", "file": K, "old": '            rate = f"{a} * zeta"\n', "new": '            rate = "%s * zeta" % a\n'})
+MUTANTS.append({"name": "kida-percent-format-wrong-symbol", "file": K, "old": '            rate = f"{a} * zeta"\n', "new": '            rate = "%s * zeta * %s" % (a, b)\n', "rules": ["R3"]})
+
+_GRAIN_IMPORT = "from ..reactiontype import ReactionType\n\nif TYPE_CHECKING:\n"
+_GRAIN_SCAN_NT = ("        for entry in self._builders:\n            if rtype == entry.rtype:\n                rate = getattr(self, entry.method)(reac)\n                break\n\n"
+                  "        else:\n            raise ValueError(")
+
+
+def _grain_namedtuple_table(skip=None):
+    """the same table with namedtuple rows, read by field name"""
+    return [{"file": G, "old": _GRAIN_IMPORT, "new": 'from ..reactiontype import ReactionType\nfrom collections import namedtuple\n\n_Builder = namedtuple("_Builder", "rtype method")\n\nif TYPE_CHECKING:\n'},
+            {"file": G, "old": _GRAIN_CHAIN, "new": _GRAIN_SCAN_NT},
+            {"file": G, "old": _GRAIN_DEF, "new": "    _builders = (\n" + "".join(f'        _Builder(ReactionType.{t}, method="{m}"),\n' for t, m in _GRAIN_ARMS if t != skip) + "    )\n\n" + _GRAIN_DEF}]
+
+
+BENIGN.append({"name": "grain-chain-as-namedtuple-table", "edits": _grain_namedtuple_table()})
+MUTANTS.append({"name": "grain-namedtuple-table-missing-type", "edits": _grain_namedtuple_table("GRAIN_RECOMINE"), "rules": ["R2"]})
+
+
+def _kida_templates(zeta):
+    """two laws kept as class-level text templates keyed by the formula number, filled in with str.format"""
+    return [{"file": K, "old": _KIDA_ARM1, "new": '        if formula in self._templates:\n            rate = self._templates[formula].format(a=a, b=b, c=c)\n        elif formula == 2:\n'},
+            {"file": K, "old": _KIDA_HEAD, "new": '    _templates = {1: "{a} * ' + zeta + '", 4: "{a} * {b} * (0.62 + 0.4767*{c}*sqrt(300.0/Tgas))"}\n\n' + _KIDA_HEAD}]
+
+
+BENIGN.append({"name": "kida-laws-as-class-templates", "edits": _kida_templates("zeta")})
+MUTANTS.append({"name": "kida-class-template-wrong-symbol", "edits": _kida_templates("zeta * Av"), "rules": ["R3"]})
+
+
+def _kida_module_function(expo):
+    """the modified-Arrhenius product built by a module-level helper function"""
+    return [{"file": K, "old": '            rate = " * ".join(\n                s\n                for s in [\n                    f"{a}",\n                    f"pow(Tgas/300.0, {b})" if b else "",\n'
+             '                    f"exp(-{c}/Tgas)" if c else "",\n                ]\n                if s\n            )\n        elif formula == 4:', "new": '            rate = _arrhenius(a, b, c)\n        elif formula == 4:'},
+            {"file": K, "old": "class KIDAReaction(Reaction):\n", "new": 'def _arrhenius(a, b, c):\n    factors = [f"{a}", f"pow(Tgas/300.0, {b})" if b else "", f"exp(' + expo + '{c}/Tgas)" if c else ""]\n'
+             '    return " * ".join(s for s in factors if s)\n\n\nclass KIDAReaction(Reaction):\n'}]
+
+
+BENIGN.append({"name": "kida-arrhenius-by-module-function", "edits": _kida_module_function("-")})
+MUTANTS.append({"name": "kida-module-function-sign", "edits": _kida_module_function(""), "rules": ["R3"]})
